@@ -6,3 +6,4 @@ def run(ck, fb, fbd):
     readers.error_state_rules(ck, fb)
     readers.validation_rules(ck, fb)
     readers.stream_rules(ck, fb)
+    readers.enum_string_rules(ck, fb)
